@@ -6,6 +6,7 @@ import (
 
 	"verif/sim/core"
 	"verif/sim/rules"
+	"verif/sim/sa"
 	"verif/sim/sb"
 	"verif/sim/tape"
 )
@@ -63,17 +64,24 @@ func init() {
 		Rule: "one run = a tape-drawn game history (start FEN, 0..14 plies with repetition bias) followed by 1..3 real AlphaBeta.Search calls on the live board (depth 1..5 by material, full or selective exploration, static or quiescence leaf, seeded evaluation and move ordering), each compared with exhaustive negamax of the model game over the same moves and leaves (value via an independent integer score model, PV legality and optimality of its first move, board handed back unchanged). Non-trivial = a search was judged on a game with >= 2 plies of history; distinct = hash of the decoded trace",
 		Real: []string{"pkg/search (AlphaBeta, Quiescence, Leaf, exploration)", "pkg/eval (Score)", "pkg/board"}, Stub: []string{"leaf evaluator and exploration predicates are harness-supplied position-determined functions, applied identically to the real search and to M-search (verif/sim/msearch)"},
 		Assumptions: []string{"reference = verif/sim/msearch on verif/sim/rules; repo's own Minimax is not the oracle", "value at a root that is already drawn is not judged (sentence leaves it open); over-budget reference searches are counted as inconclusive", "sampling: a clean batch is evidence, not proof"},
-		Run: sb.SearchSessionC03})
+		Run:         sb.SearchSessionC03})
 	register(&Spec{Prop: "C11", QuickRuns: 6000, Level: "exploration",
 		Rule: "one run = a game history, one real table of tape-drawn size (2..65536 slots, optionally behind the min-depth-1 write filter) wrapped in a recording table, then 1..4 rounds of iterative deepening 1..d with the game advancing 1..2 plies between rounds and an occasional halted search in between; judged per search: root score vs the same search without table, PV first move's no-table value, every (sampled) exact store vs the no-table value of the forked position at that depth, every hit vs the last store let through. Non-trivial = at least 2 judged searches and at least one table hit; distinct = hash of the decoded trace",
 		Real: []string{"pkg/search (AlphaBeta, Quiescence, table, WriteLimited)", "pkg/board"}, Stub: []string{"recording wrapper around the real table; harness-supplied position-determined evaluator and exploration"},
 		Assumptions: []string{"differential baseline: the repo's own AlphaBeta with NoTranspositionTable", "sessions are excluded from the first search in which a repetition/fifty-move draw could arise inside the tree (sufficient condition: all game positions distinct, depth <= 5, clock+depth < 100)", "exact stores are sampled (every 1st..3rd) in the quick tier"},
-		Run: sb.SearchSessionC11})
+		Run:         sb.SearchSessionC11})
 	register(&Spec{Prop: "C12", QuickRuns: 600, Level: "fault_enumeration",
 		Rule: "one run = one search (AlphaBeta full/selective/quiescence, Minimax, or AlphaBeta with SARGON's check-extension leaf) on a live board with history, with a fresh or pre-filled real table of tape-drawn size; its cancellation polls are counted (P) and the search is rerun with the context cancelled at exactly the n-th poll for every n<=P (P<=250), else the first 80, last 80 and 90 tape-drawn polls. evaluations = halted searches; each is judged on: ErrHalted and no result, every board getter unchanged, every store after the halt verified against the no-table value of the forked position, and two follow-up searches on the same table compared with a twin table on which the halted search never ran. Non-trivial = at least 10 polls enumerated; distinct = hash of the decoded trace",
 		Real: []string{"pkg/search (AlphaBeta, Quiescence, Minimax, table)", "cmd/sargon/sargon (OnePlyIfChecked)", "pkg/board", "seekerror/stdlib contextx.IsCancelled"}, Stub: []string{"context.Context replaced by a counting context whose Done() closes at the n-th call (the cancellation seam); harness-supplied evaluator/exploration; recording wrapper around the real table"},
 		Assumptions: []string{"cancellation is observed only through ctx.Done() polls (true for contextx.IsCancelled)", "follow-up comparison only where no repetition/fifty-move draw can arise in the tree and the root is not already drawn", "the S-A part (Handle.Halt, stop, timers reaching the search through a helper goroutine) is exercised by C15/C16/C04"},
-		Run: sb.SearchSessionC12})
+		Run:         sb.SearchSessionC12})
+	saReal := []string{"pkg/engine/uci (Driver)", "pkg/engine (Engine)", "pkg/search/searchctl (Iterative, TimeControl)", "pkg/search, pkg/eval, pkg/board", "cmd/{turochamp,sargon,bernstein} evaluators, move filters and books", "seekerror/stdlib iox/contextx", "time (testing/synctest fake clock)"}
+	saStub := []string{"the four main() functions (their ~10-line engine wiring is repeated in verif/sim/sa/engines.go; morlock's 64 MB default table replaced by 1 MB)", "stdin/stdout line pumps replaced by simulator channels", "every leaf evaluator wrapped in the gate (inner evaluator is the real one)", "Book wrapped to sort its answer (map iteration order)", "glog output discarded"}
+	register(&Spec{Prop: "C04", QuickRuns: 3000, Level: "exploration", NeedsBubble: true, CrashIsViolation: true,
+		Rule: "one run = one UCI session of a polite GUI against a tape-drawn engine wiring and option set inside a synctest bubble: 3..22 commands (position startpos/fen/extended/repeated/shortened, every go variant, stop, isready, setoption, ucinewgame), with the controller interleaving command delivery, search progress (gate credits), hooked task releases, clock advances and consumer stalls from the tape; an obligation tracker demands exactly one legal bestmove per go (0000 only without legal move; go infinite only after stop), and a settle phase decides liveness. Non-trivial = at least one go and >= 10 scheduling events; distinct = hash of the (task, point)/stimulus sequence",
+		Real: saReal, Stub: saStub,
+		Assumptions: []string{"legality judged by verif/sim/rules", "scheduling freedom exists at the gate and at the simhook points; goroutines woken in the same step run in parallel until their next park point", "liveness is judged only in the settle phase (all tasks released fairly, hours of simulated time)"},
+		Run:         sa.SessionC04})
 }
 
 // SelfTest validates the harness' own oracles; an error is harness trouble (exit 2).
